@@ -293,6 +293,47 @@ let verdict case impl =
            (match g_par (nat_of_int 80) st (fun _ -> true) g [] [pc c a; pc (c + 1) b] with
             | Some g' -> run g' (c + 2) (idx + 2) rest      (* reports the later op that no interleaving explains *)
             | None -> `Bad (idx, [a; b], "no interleaving of the two concurrent calls is a run of the model"))) in
+    (* "the new metadata id … is also what the next execution presents", for histories with
+       concurrent callers too: per statement, [recent] = the ids announced by the latest item (operation
+       or concurrent pair) that announced any, [older] = every id announced before (and the one of
+       preparation).  An EXECUTE of the mismatching ops that presents an id of [older] that is not in
+       [recent] has gone back to an older announcement. *)
+    let older_id_presented idx ops =
+      let announced o = match o with
+        | TO_exec (_, _, a, xs, _) ->
+          List.concat_map (fun x -> match x.x_req, x.x_resp with
+              | Q_execute _, RRows { rb_meta = RM_full (Some i, _); _ } -> [(int_of_nat a.xa_stmt, i)]
+              | Q_prepare _, RPrepared (id, m) when id = (st a.xa_stmt).s_id && m.m_cols <> [] ->
+                (match m.m_id with Some i -> [(int_of_nat a.xa_stmt, i)] | None -> [])
+              | _ -> []) xs
+        | _ -> [] in
+      let recent = Hashtbl.create 4 and older = Hashtbl.create 4 in
+      for s = 0 to ns - 1 do
+        (match (init (nat_of_int s)).m_id with Some i -> Hashtbl.replace recent s [i] | None -> Hashtbl.replace recent s []);
+        Hashtbl.replace older s []
+      done;
+      let pos = ref 0 in
+      List.iter (fun it ->
+          let os = (match it with `Seq o -> [o] | `Par (a, b) -> [a; b]) in
+          if !pos < idx then begin
+            let ann = List.concat_map announced os in
+            List.iter (fun s ->
+                let mine = List.filter_map (fun (s', i) -> if s' = s then Some i else None) ann in
+                if mine <> [] then begin
+                  Hashtbl.replace older s ((try Hashtbl.find recent s with Not_found -> []) @ (try Hashtbl.find older s with Not_found -> []));
+                  Hashtbl.replace recent s mine
+                end) (List.init ns (fun s -> s))
+          end;
+          pos := !pos + List.length os) items;
+      List.exists (fun o -> match o with
+          | TO_exec (_, true, a, xs, _) ->
+            let s = int_of_nat a.xa_stmt in
+            let r = (try Hashtbl.find recent s with Not_found -> []) and ol = (try Hashtbl.find older s with Not_found -> []) in
+            (match xs with
+             | { x_req = Q_execute f; _ } :: _ ->
+               (match f.f_rmid with Some i -> i <> [] && List.mem i ol && not (List.mem i r) | None -> false)
+             | _ -> false)
+          | _ -> false) ops in
     (match run (ginit init) 0 0 items with
      | `Bad (idx, ops, why) ->
        (* model and implementation differ on these ops: property failure or broken correspondence? *)
@@ -304,24 +345,15 @@ let verdict case impl =
            (match snd (List.hd bad_book) with
             | None -> "an EXECUTE presents another metadata id / skip flag than the most recently announced metadata asks for"
             | _ -> "rows decoded with columns other than the most recently announced") why
+       else if (not !forced) && older_id_presented idx ops then
+         Printf.sprintf "viol op=%d an EXECUTE presents a metadata id older than the last announced one (stale snapshot written back?); model mismatch: %s" idx why
        else Printf.sprintf "diff op=%d %s" idx why
      | `Fine gfinal ->
        (* accepted by the generic system.  Property predicate before every ok. *)
        let bad = List.concat (List.mapi (fun i o -> if prop_ok o then [] else [i]) tr) in
        if bad <> [] then
          Printf.sprintf "viol ops=%s property predicate fails on a trace the model accepts" (String.concat "," (List.map string_of_int bad))
-       else if not spec_history then begin
-         (* note when the cell ended on an older announcement than the newest one (concurrent write-back) *)
-         let wb = ref false in
-         for s = 0 to ns - 1 do
-           match gfinal.g_ann (nat_of_int s) with
-           | back :: newer :: older ->
-             if back.m_id <> newer.m_id && (List.exists (fun m -> m.m_id = back.m_id) older || (init (nat_of_int s)).m_id = back.m_id)
-             then wb := true
-           | _ -> ()
-         done;
-         if !wb then "ok note=stale-writeback" else "ok"
-       end else
+       else if not spec_history then "ok" else
          (match s_accept d st (nat_of_int ns) (sinit init nodes) O tr with
           | (_, V_ok _) ->
             (* model = implementation = specification nodes.  The model follows the code AS IT IS;
